@@ -149,17 +149,19 @@ pub fn wl_mutex<M: RawMutex + Send + Sync + 'static>(seed: u64, n: usize, rounds
     let cancelled = AtomicU64::new(0);
     let completed = AtomicU64::new(0);
     let run = Run::new(n);
+    let fair_recs = std::sync::Mutex::new(Vec::<FairRec>::new());
     let mut logs: Vec<Vec<LogEv>> = vec![];
     let mut verdict = Verdict::Finished;
     let mut free_at_deadlock = false;
     std::thread::scope(|s| {
         let mut hs = vec![];
         for i in 0..n {
-            let (m, in_cs, overlap, acquired, cancelled, completed, run) = (&m, &in_cs, &overlap, &acquired, &cancelled, &completed, run.clone());
+            let (m, in_cs, overlap, acquired, cancelled, completed, fair_recs, run) = (&m, &in_cs, &overlap, &acquired, &cancelled, &completed, &fair_recs, run.clone());
             hs.push(s.spawn(move || {
                 enter_worker(&run, i, seed ^ (i as u64 + 1).wrapping_mul(0x9E37_79B9));
                 let mut rng = Rng::new(seed.wrapping_mul(31).wrapping_add(i as u64));
                 let mut lg: Vec<LogEv> = Vec::with_capacity(rounds + 2);
+                let mut fr: Vec<FairRec> = Vec::with_capacity(rounds + 2);
                 let crit = |g: &mut u64| {
                     if in_cs.swap(true, Relaxed) {
                         overlap.fetch_add(1, Relaxed);
@@ -177,8 +179,12 @@ pub fn wl_mutex<M: RawMutex + Send + Sync + 'static>(seed: u64, n: usize, rounds
                     }
                     let last = r == rounds;
                     if !last && rng.below(10) < 2 {
+                        let c0 = run.now();
+                        let got = m.try_lock();
+                        let c1 = run.now();
+                        fr.push(FairRec { task: i as u16, first_call: c0, reg_ret: 0, end_call: c0, end_ret: c1, ok: got.is_some(), n: 1 });
                         log!(lg, run, i, 0u8, 0u64, {
-                            match m.try_lock() {
+                            match got {
                                 Some(mut g) => {
                                     crit(&mut *g);
                                     drop(g);
@@ -195,6 +201,7 @@ pub fn wl_mutex<M: RawMutex + Send + Sync + 'static>(seed: u64, n: usize, rounds
                     log!(lg, run, i, 1u8, how_code(how), {
                         let o = drive(&run, i, m.lock(), how, 1);
                         drive_stats(cancelled, completed, &o);
+                        fr.push(fair_rec(&run, i, matches!(o, Outcome::Ready(_)), 1));
                         match o {
                             Outcome::Ready(mut g) => {
                                 crit(&mut *g);
@@ -209,6 +216,7 @@ pub fn wl_mutex<M: RawMutex + Send + Sync + 'static>(seed: u64, n: usize, rounds
                         }
                     });
                 }
+                fair_recs.lock().unwrap().extend(fr);
                 leave_worker(&run, i);
                 lg
             }));
@@ -234,6 +242,11 @@ pub fn wl_mutex<M: RawMutex + Send + Sync + 'static>(seed: u64, n: usize, rounds
     ctx.check("C02", "non-atomic-counter-equals-number-of-acquisitions", total > 0, value == total || verdict != Verdict::Finished, || {
         format!("protected counter is {} after {} acquisitions", value, total)
     });
+    if fair {
+        let recs = fair_recs.lock().unwrap();
+        let v = fairness_violation(&recs);
+        ctx.check("C04", "no-attempt-overtakes-a-waiter-that-was-queued-before-it-started", recs.iter().any(|r| r.reg_ret > 0), v.is_none(), || v.clone().unwrap());
+    }
     match verdict {
         Verdict::Finished => ctx.check("C03", "looping-tasks-with-cancellation-terminate", true, true, String::new),
         Verdict::AllParked => {
@@ -251,6 +264,55 @@ pub fn wl_mutex<M: RawMutex + Send + Sync + 'static>(seed: u64, n: usize, rounds
         }
     }
     take_fail(ctx, &logs, &names)
+}
+
+/// One lock / acquire attempt as the fairness oracle sees it (stamps from the run's single counter).
+#[derive(Clone, Copy, Debug)]
+pub struct FairRec {
+    pub task: u16,
+    /// call of the first poll (or of try_lock / try_acquire)
+    pub first_call: u64,
+    /// return of the first poll that was Pending; 0 = the attempt never waited
+    pub reg_ret: u64,
+    /// call of the poll that completed it, or of the drop that cancelled it
+    pub end_call: u64,
+    /// return of the completing call
+    pub end_ret: u64,
+    pub ok: bool,
+    pub n: u64,
+}
+
+fn fair_rec(run: &Arc<Run>, i: usize, ok: bool, n: u64) -> FairRec {
+    let c = &run.tasks[i];
+    FairRec { task: i as u16, first_call: c.t_first_call.load(Relaxed), reg_ret: c.t_reg_ret.load(Relaxed), end_call: c.t_end_call.load(Relaxed), end_ret: c.t_end_ret.load(Relaxed), ok, n }
+}
+
+/// Threaded fairness oracle (C04 / C07), sound by construction: attempt A *returned* Pending from its first poll
+/// (it is queued) before attempt B was even *called*; B succeeded and its successful call returned before the
+/// call that completed A (or the drop that cancelled A) began. Then B overtook a request that started waiting
+/// earlier and was still pending. Requests for zero permits (n == 0) are exempt on both sides.
+fn fairness_violation(recs: &[FairRec]) -> Option<String> {
+    let mut succ: Vec<&FairRec> = recs.iter().filter(|r| r.ok && r.n > 0).collect();
+    if succ.is_empty() {
+        return None;
+    }
+    succ.sort_by_key(|r| r.first_call);
+    // suffix minimum of end_ret over the successes ordered by first_call
+    let mut suf: Vec<(u64, usize)> = vec![(u64::MAX, 0); succ.len() + 1];
+    for k in (0..succ.len()).rev() {
+        suf[k] = if succ[k].end_ret < suf[k + 1].0 { (succ[k].end_ret, k) } else { suf[k + 1] };
+    }
+    for a in recs.iter().filter(|r| r.reg_ret > 0 && r.n > 0) {
+        let idx = succ.partition_point(|b| b.first_call <= a.reg_ret);
+        if idx < succ.len() && suf[idx].0 < a.end_call {
+            let b = succ[suf[idx].1];
+            return Some(format!(
+                "task {} was queued (first poll returned Pending at stamp {}) before task {} started its attempt (stamp {}), yet that attempt succeeded (returned at {}) before the waiting one was completed or dropped (that call began at {})",
+                a.task, a.reg_ret, b.task, b.first_call, b.end_ret, a.end_call
+            ));
+        }
+    }
+    None
 }
 
 fn how_code(h: Drive) -> u64 {
@@ -344,20 +406,21 @@ impl<M: RawMutex + Send + Sync> SemOps for futures_intrusive::sync::GenericShare
 pub fn wl_semaphore<M: RawMutex + Send + Sync + 'static>(seed: u64, n: usize, rounds: usize, fair: bool, total: usize, shared: bool, ctx: &mut Ctx, st: &mut ConcStats) -> Option<Violation> {
     if shared {
         let sem = futures_intrusive::sync::GenericSharedSemaphore::<M>::new(fair, total);
-        wl_semaphore_inner(sem, seed, n, rounds, total, ctx, st)
+        wl_semaphore_inner(sem, seed, n, rounds, fair, total, ctx, st)
     } else {
         let sem: GenericSemaphore<M> = GenericSemaphore::new(fair, total);
-        wl_semaphore_inner(&sem, seed, n, rounds, total, ctx, st)
+        wl_semaphore_inner(&sem, seed, n, rounds, fair, total, ctx, st)
     }
 }
 
-fn wl_semaphore_inner<S: SemOps>(sem: S, seed: u64, n: usize, rounds: usize, total: usize, ctx: &mut Ctx, st: &mut ConcStats) -> Option<Violation> {
+fn wl_semaphore_inner<S: SemOps>(sem: S, seed: u64, n: usize, rounds: usize, fair: bool, total: usize, ctx: &mut Ctx, st: &mut ConcStats) -> Option<Violation> {
     let sem = &sem;
     let in_use = AtomicU64::new(0);
     let over = AtomicU64::new(0);
     let cancelled = AtomicU64::new(0);
     let completed = AtomicU64::new(0);
     let run = Run::new(n);
+    let fair_recs = std::sync::Mutex::new(Vec::<FairRec>::new());
     let mut logs: Vec<Vec<LogEv>> = vec![];
     let mut verdict = Verdict::Finished;
     let mut permits_at_deadlock = 0usize;
@@ -365,11 +428,12 @@ fn wl_semaphore_inner<S: SemOps>(sem: S, seed: u64, n: usize, rounds: usize, tot
     std::thread::scope(|s| {
         let mut hs = vec![];
         for i in 0..n {
-            let (sem, in_use, over, cancelled, completed, run) = (&sem, &in_use, &over, &cancelled, &completed, run.clone());
+            let (sem, in_use, over, cancelled, completed, fair_recs, run) = (&sem, &in_use, &over, &cancelled, &completed, &fair_recs, run.clone());
             hs.push(s.spawn(move || {
                 enter_worker(&run, i, seed ^ (i as u64 + 1).wrapping_mul(0x9E37_79B9));
                 let mut rng = Rng::new(seed.wrapping_mul(37).wrapping_add(i as u64));
                 let mut lg: Vec<LogEv> = Vec::with_capacity(rounds + 2);
+                let mut fr: Vec<FairRec> = Vec::with_capacity(rounds + 2);
                 let hold = |k: usize| {
                     let now = in_use.fetch_add(k as u64, Relaxed) + k as u64;
                     if now > total as u64 {
@@ -386,8 +450,12 @@ fn wl_semaphore_inner<S: SemOps>(sem: S, seed: u64, n: usize, rounds: usize, tot
                     let c = rng.below(10);
                     if !last && c == 0 {
                         let k = rng.below(total + 1);
+                        let c0 = run.now();
+                        let got = sem.try_acquire(k);
+                        let c1 = run.now();
+                        fr.push(FairRec { task: i as u16, first_call: c0, reg_ret: 0, end_call: c0, end_ret: c1, ok: got.is_some(), n: k as u64 });
                         log!(lg, run, i, 0u8, k, {
-                            match sem.try_acquire(k) {
+                            match got {
                                 Some(rel) => {
                                     hold(k);
                                     drop(rel);
@@ -416,6 +484,7 @@ fn wl_semaphore_inner<S: SemOps>(sem: S, seed: u64, n: usize, rounds: usize, tot
                     log!(lg, run, i, 1u8, (k as u64) << 8 | how_code(how), {
                         let o = drive(&run, i, sem.acquire(k), how, k as u64);
                         drive_stats(cancelled, completed, &o);
+                        fr.push(fair_rec(&run, i, matches!(o, Outcome::Ready(_)), k as u64));
                         match o {
                             Outcome::Ready(mut rel) => {
                                 hold(k);
@@ -434,6 +503,7 @@ fn wl_semaphore_inner<S: SemOps>(sem: S, seed: u64, n: usize, rounds: usize, tot
                         }
                     });
                 }
+                fair_recs.lock().unwrap().extend(fr);
                 leave_worker(&run, i);
                 lg
             }));
@@ -461,6 +531,11 @@ fn wl_semaphore_inner<S: SemOps>(sem: S, seed: u64, n: usize, rounds: usize, tot
     ctx.check("C05", "permits-in-use-never-exceed-total", true, ov == 0, || format!("{} times more than {} permits were held at once", ov, total));
     let p = sem.permits();
     ctx.check("C05", "all-permits-home-after-the-run", true, p == total, || format!("permits()={} after all releasers are gone, total {}", p, total));
+    if fair {
+        let recs = fair_recs.lock().unwrap();
+        let v = fairness_violation(&recs);
+        ctx.check("C07", "no-request-overtakes-one-that-was-queued-before-it-started", recs.iter().any(|r| r.reg_ret > 0 && r.n > 0), v.is_none(), || v.clone().unwrap());
+    }
     match verdict {
         Verdict::Finished => ctx.check("C06", "acquire-timeout-release-tasks-terminate", true, true, String::new),
         Verdict::AllParked => {
